@@ -1,16 +1,17 @@
 import Gimli.Prim.Basic
 /-!
 # Model of address handling in `write::ConvertLineProgram` + `write::LineProgram`
-(`src/write/line.rs`, HEAD of /repo with the `fix:` for `DW_LNE_set_address` inside a sequence)
+(`src/write/line.rs`, HEAD of /repo with the `fix:`es for `DW_LNE_set_address` inside a sequence,
+for an end address given by `DW_LNE_set_address`, and for tombstone addresses)
 
 Only the address dimension is modelled (the other registers are copied row by row and are covered
 by the differential run): a line program is abstracted to the events that touch the address.
 -/
 namespace Gimli.ConvLine
 
-/-- address-relevant instructions of a source program -/
+/-- address-relevant instructions of a line program -/
 inductive Ins where
-  | setAddress (a : Nat)      -- DW_LNE_set_address (accepted: not a tombstone)
+  | setAddress (a : Nat)      -- DW_LNE_set_address, ANY value (tombstones included)
   | advance (d : Nat)         -- any advance of the address register by `d`
   | row                       -- an instruction that emits a row
   | endSeq                    -- DW_LNE_end_sequence
@@ -19,14 +20,20 @@ inductive Ins where
 /-- what the reader reports: absolute address of each emitted row; `true` marks the end row -/
 abbrev Rows := List (Nat × Bool)
 
-/-- the reader's address register (src/read/line.rs), for programs whose `set_address` values are
-accepted (the hypothesis `Accepted` below states when) -/
-def readRows : Nat → List Ins → Rows
-  | _, [] => []
-  | _, .setAddress a :: is => readRows a is
-  | addr, .advance d :: is => readRows (addr + d) is
-  | addr, .row :: is => (addr, false) :: readRows addr is
-  | addr, .endSeq :: is => (addr, true) :: readRows 0 is
+/-- `LineRow::execute`, `SetAddress` arm: a lower address than the current one, or one from
+`min_tombstone` (= all-ones − 1, parameter `T`) up, is a tombstone -/
+def isTomb (T addr a : Nat) : Bool := decide (a < addr) || decide (T ≤ a)
+
+/-- the reader (`LineRows::next_row` over `LineRow::execute`, src/read/line.rs): the address
+register and the tombstone flag. While tombstoned the address does not move and rows are skipped —
+including the `end_sequence` row, whose reset still happens (finding C04-1). -/
+def readRows (T : Nat) : (addr : Nat) → (tomb : Bool) → List Ins → Rows
+  | _, _, [] => []
+  | addr, _, .setAddress a :: is =>
+      if isTomb T addr a then readRows T addr true is else readRows T a false is
+  | addr, tomb, .advance d :: is => readRows T (if tomb then addr else addr + d) tomb is
+  | addr, tomb, .row :: is => if tomb then readRows T addr tomb is else (addr, false) :: readRows T addr tomb is
+  | addr, tomb, .endSeq :: is => if tomb then readRows T 0 false is else (addr, true) :: readRows T 0 false is
 
 /-- events handed from `ConvertLineProgram::read_row` to the writer -/
 inductive Ev where
@@ -36,31 +43,29 @@ inductive Ev where
   deriving Repr, DecidableEq
 
 /-- `ConvertLineProgram::read_row`, address part: `rel` is `from_row.address()` (restarted at 0 by
-every `DW_LNE_set_address`), `pending` the address to hand over before the next row -/
-def convert : (rel : Nat) → (pending : Option Nat) → List Ins → List Ev
-  | _, _, [] => []
-  | _, _, .setAddress a :: is => convert 0 (some a) is
-  | rel, p, .advance d :: is => convert (rel + d) p is
-  | rel, some a, .row :: is => .setAddress a :: .row rel :: convert rel none is
-  | rel, none, .row :: is => .row rel :: convert rel none is
-  | rel, _, .endSeq :: is => .endSeq rel :: convert 0 none is
+every `DW_LNE_set_address`, and advancing even while a tombstone is skipped), `fa` the field
+`from_address`, `tomb` the local `tombstone`, `pending` the field `address` (handed over before
+the next row, or before the end of the sequence) -/
+def convert (T : Nat) : (rel fa : Nat) → (tomb : Bool) → (pending : Option Nat) → List Ins → List Ev
+  | _, _, _, _, [] => []
+  | rel, fa, tomb, p, .setAddress a :: is =>
+      let fa' := if tomb then fa else fa + rel
+      if isTomb T fa' a then convert T 0 fa' true p is else convert T 0 a false (some a) is
+  | rel, fa, tomb, p, .advance d :: is => convert T (rel + d) fa tomb p is
+  | rel, fa, true, p, .row :: is => convert T rel fa true p is
+  | rel, fa, false, some a, .row :: is => .setAddress a :: .row rel :: convert T rel fa false none is
+  | rel, fa, false, none, .row :: is => .row rel :: convert T rel fa false none is
+  | _, _, true, _, .endSeq :: is => convert T 0 0 false none is
+  | rel, _, false, some a, .endSeq :: is => .setAddress a :: .endSeq rel :: convert T 0 0 false none is
+  | rel, _, false, none, .endSeq :: is => .endSeq rel :: convert T 0 0 false none is
 
-/-- `LineProgram::{set_address, generate_row, end_sequence}` followed by writing and reading the
-emitted program: `base` is the last address set, `prev` the previous row's offset (restarted by
-`set_address`), `cur` the reader's address register on the written program -/
-def replay : (prev cur : Nat) → List Ev → Rows
-  | _, _, [] => []
-  | _, _, .setAddress a :: es => replay 0 a es
-  | prev, cur, .row off :: es => (cur + (off - prev), false) :: replay off (cur + (off - prev)) es
-  | prev, cur, .endSeq off :: es => (cur + (off - prev), true) :: replay 0 0 es
-
-/-- every `set_address` is followed by a row before the sequence ends (a sequence that is nothing
-but set_address + end_sequence carries no line information; the converter drops its address) -/
-def NoEmptySeq : Option Nat → List Ins → Prop
-  | _, [] => True
-  | _, .setAddress a :: is => NoEmptySeq (some a) is
-  | p, .advance _ :: is => NoEmptySeq p is
-  | _, .row :: is => NoEmptySeq none is
-  | p, .endSeq :: is => p = none ∧ NoEmptySeq none is
+/-- `LineProgram::{set_address, generate_row, end_sequence}` and `LineProgram::write`, address
+part: the instructions of the written program. `prev` is the previous row's offset (restarted by
+`set_address`); `generate_row` advances by the difference of offsets. -/
+def emit : (prev : Nat) → List Ev → List Ins
+  | _, [] => []
+  | _, .setAddress a :: es => .setAddress a :: emit 0 es
+  | prev, .row off :: es => .advance (off - prev) :: .row :: emit off es
+  | prev, .endSeq off :: es => .advance (off - prev) :: .endSeq :: emit 0 es
 
 end Gimli.ConvLine
